@@ -49,7 +49,7 @@ Fixpoint dec_e (fuel : nat) (v : val) : option expr :=
     | VL [VZ 15; pid; it; mn] =>
       match get_n pid, dec_e f it, dec_e f mn with Some p, Some i, Some m => Some (EMenu p i m) | _, _, _ => None end
     | VL [VZ 16; VZ k; i] =>
-      match (if k =? 0 then Some TSpecial else if k =? 1 then Some TDateTime else if k =? 2 then Some TSystem else None), get_n i with
+      match (if k =? 0 then Some TSpecial else if k =? 1 then Some TDateTime else if k =? 2 then Some TSystem else if k =? 3 then Some TNumOf else None), get_n i with
       | Some k', Some i' => Some (EThe k' i') | _, _ => None end
     | VL [VZ 17; k] => option_map ETheN (get_n k)
     | VL [VZ 18; k; a] => match get_n k, dec_e f a with Some k', Some a' => Some (EAcc k' a') | _, _ => None end
@@ -142,7 +142,7 @@ Fixpoint js_okb (en : env) (e : expr) {struct e} : bool :=
   | EList items | EPList items => forallb (js_okb en) items
   | EObj f _ x => js_okb en x && match f with FLast | FNumber => negb (needs_paren en x) | _ => true end
   | EMenu _ it mn => js_okb en it && js_okb en mn
-  | EAcc _ _ => false
+  | EAcc _ _ | EThe TNumOf _ => false
   | _ => true
   end.
 Definition par_okb (en : env) (i : nat) : bool :=
